@@ -138,11 +138,15 @@ def compute_helicity_angles(
                     }
 
                     # register current angle variables
+                    sibling_decays = False
                     if is_opposite_helicity_state(topology, state_id):
                         state_id = get_sibling_state_id(topology, state_id)
-                    phi, theta = get_helicity_angle_symbols(topology, state_id)
-                    helicity_angles[phi] = Phi(four_momentum)
-                    helicity_angles[theta] = Theta(four_momentum)
+                        sibling_decays = topology.edges[state_id].ending_node_id is not None
+                    if not sibling_decays:
+                        # if both children decay, the angles are those of the helicity state
+                        phi, theta = get_helicity_angle_symbols(topology, state_id)
+                        helicity_angles[phi] = Phi(four_momentum)
+                        helicity_angles[theta] = Theta(four_momentum)
 
                     # call next recursion
                     angles = __recursive_helicity_angles(
